@@ -1,6 +1,6 @@
 """C39 - identical behaviour across build configurations.
 
-A portfolio of ~700 pure-Python functions (props/_g11_c39portfolio.py: arithmetic with constants via C02's generator,
+A portfolio of ~370 (quick) / ~775 (thorough) pure-Python functions (props/_g11_c39portfolio.py: arithmetic with constants via C02's generator,
 str/bytes methods, formatting, indexing, comparisons, exceptions, generators, argument binding, classes, closures) with
 complete small input sets is built under EVERY single deviation from the default build configuration:
 language C++; -O2, -O3; each feature macro flipped (CYTHON_USE_PYLONG_INTERNALS=0, CYTHON_USE_UNICODE_INTERNALS=0,
@@ -22,7 +22,7 @@ from props import _g11_c39portfolio as PF
 LEVEL = 'exploration'
 ENGINE = 'E2 diffexplore'
 TECHNIQUE = 'complete single-deviation (thorough: pair) configuration matrix x complete portfolio x complete input sets, every cell vs CPython on the identical source'
-LEVEL_TEXT = ('About 700 pure-Python functions (constant arithmetic, str/bytes methods, formatting, indexing, comparisons, exceptions, '
+LEVEL_TEXT = ('About 370 (quick) / 775 (thorough) pure-Python functions (constant arithmetic, str/bytes methods, formatting, indexing, comparisons, exceptions, '
               'generators, argument binding, classes, closures) with complete small input sets are compiled under every single '
               'deviation from the default configuration (C++, -O2, -O3, 19 feature-macro cells incl. Limited API and the four '
               'string-compression settings, 6 directive cells; thorough: all pairs among 8 interacting macros plus language x '
@@ -73,14 +73,33 @@ def cells(tier):
 PROBE = PF.PRELUDE + '''
 def probe(x, *a, k=1, **kw):
     l = [x, *a]
-    return [l[0], sorted(kw), f"{x!r}:{k}", x + 1 if isinstance(x, int) else None]
+    try:
+        with P() as p:
+            l.append(p.m(k=x))
+            raise KeyError(x)
+    except KeyError as e:
+        l.append(e.args)
+    finally:
+        l.append(f"{x!r}:{k}")
+    return [l, sorted(kw), list(i + 1 for i in range(3)), x + 1 if isinstance(x, int) else None, "%5s" % (x,)]
+
+def gen(n):
+    try:
+        for i in range(n):
+            yield i
+    finally:
+        pass
 
 class P:
-    def m(self, a):
-        return a
+    def m(self, a=1, *, k):
+        return [a, k]
+    def __enter__(self):
+        return self
+    def __exit__(self, *a):
+        return False
 '''
 
-PER_MODULE = 120
+PER_MODULE = 130
 
 
 class Collector:
@@ -149,6 +168,9 @@ def run(ctx):
     #      difference but a portfolio/compiler difference to CPython); otherwise the key carries the deviating cell(s)
     by_root = collections.defaultdict(dict)
     for key, what, case in col.items:
+        kp = key.split('|')
+        if kp[-1] == 'crash':
+            key = '%s|crash' % kp[0].split('/')[0]       # one key per (cell, family): a crash does not depend on the operand class
         cn = cell_name(case.get('name', '')) if isinstance(case, dict) else '?'
         by_root[key].setdefault(cn, (what, case))
     for key, percell in sorted(by_root.items()):
@@ -161,12 +183,15 @@ def run(ctx):
     # ---- rejected builds inside supported cells
     unsupported_funcs = []
     for tags, stage_, errs in st['rejected']:
+        m = re.search(r'/(c39_\w+?)/', errs)
+        cn = cell_name(m.group(1)) if m else '?'
         if '#error' in errs:
-            unsupported_funcs.append([tags[0] if tags else '?', (re.search(r'#error (.*)', errs).group(1))[:160]])
+            unsupported_funcs.append([cn, tags[0] if tags else '?', (re.search(r'#error (.*)', errs).group(1))[:160]])
         else:
-            ctx.violation('build-failure|%s|%s' % (stage_, tags[0] if tags else '?'),
-                          'a portfolio function does not build in some supported cell (%s): %s' % (stage_, errs[-500:]),
-                          {'kind': 'build-info', 'tags': tags, 'errors': errs})
+            em = re.search(r'error: (.*)', errs)
+            ctx.violation('%s|build-failure|%s|%s' % (cn, stage_, (tags[0] if tags else '?').split('/')[0]),
+                          '[cell %s] portfolio function %s does not build (%s): %s' % (cn, tags[:1], stage_, (em.group(1) if em else errs[-300:])[:300]),
+                          {'kind': 'build-info', 'cell': cn, 'tags': tags, 'errors': errs})
     ncell = len(supported)
     cov = {
         'evaluations': st['evaluations'], 'distinct_nontrivial': st['pairs'],
